@@ -606,3 +606,58 @@ def csv_import_places_every_cell(K, with_descriptions):
                 else:
                     K.ensure(f"{name}: frequency", K.cls_of(K.attr(s, "start")) is cls)
                     K.ensure(f"{name}: period {i}, variant {v}", K.cell_eq(V(K, ss, sd, start + i, v), want))
+
+
+# ------------------------------------------------------------------------------ Databox.merge / by_merging with a strategy for duplicate names
+from irispie.databoxes import _merge as MRG
+from irispie import wrongdoings as _W
+PMG = "irispie.databoxes._merge:"
+
+
+@contract("C19", targets=[PMG + "_merge", PMG + "_by_merging", PMG + "_merge_stack", PMG + "_merge_replace", PMG + "_merge_discard", PMG + "_merge_report",
+                          "irispie.series.main:Series.hstack"],
+          instances=[(s, via) for s in ("stack", "replace", "discard", "error") for via in ("merge", "by_merging")], cross=2, opts={"max_paths": 3000})
+def merging_databoxes_by_strategy(K, strategy, via):
+    """self.merge([b, c], strategy) / Databox.by_merging([b, c], strategy): names held by one source are carried over;
+    for a name held by both, "stack" puts the values side by side (series: variants next to each other on the union of
+    their periods; lists joined; other values collected in a list), "replace" keeps the later, "discard" the earlier, and
+    "error" raises naming the duplicates.  The databoxes merged FROM keep their items and the values of their lists."""
+    cls = D.QuarterlyPeriod
+    sb, sbs, sbd = mk_series(K, "sb", cls, 1)
+    sc, scs, scd = mk_series(K, "sc", cls, 1)
+    Lb, Lc = [1], [2, 3]
+    ob, oc = Opaque("only_b"), Opaque("only_c")
+    b = K.call(Databox)
+    c = K.call(Databox)
+    for db, items in ((b, (("L", Lb), ("k", 5), ("s", sb), ("only_b", ob))), (c, (("L", Lc), ("k", 6), ("s", sc), ("only_c", oc)))):
+        for n, v in items:
+            K.setitem(db, n, v)
+
+    def run():
+        if via == "merge":
+            a = K.call(Databox)
+            K.method(a, "merge", [b, c], strategy)
+            return a
+        return K.call(Databox.by_merging, [b, c], strategy)
+    if strategy == "error":
+        K.raises(_W.IrisPieError, run, "duplicate names are reported")
+    else:
+        a = run()
+        m = view(K, a)
+        K.ensure("union of names", set(m) == {"L", "k", "s", "only_b", "only_c"})
+        K.ensure("names held by one source are carried over", m["only_b"] is ob and m["only_c"] is oc)
+        if strategy == "stack":
+            K.ensure("lists are joined, other values collected", list(K.items(m["L"])) == [1, 2, 3] and list(K.items(m["k"])) == [5, 6])
+            rs, rd = state(K, m["s"])
+            t = K.int("t", 7960, 8120)
+            K.instantiate(t)
+            K.ensure("series: two variants", K.shape(rd)[1] == 2)
+            K.ensure("series: first variant from the earlier source, period by period", K.cell_eq(V(K, rs, rd, t, 0), V(K, sbs, sbd, t, 0)))
+            K.ensure("series: second variant from the later source, period by period", K.cell_eq(V(K, rs, rd, t, 1), V(K, scs, scd, t, 0)))
+        elif strategy == "replace":
+            K.ensure("the later source wins", m["L"] is Lc and m["k"] == 6 and m["s"] is sc)
+        else:
+            K.ensure("the earlier source wins", list(K.items(m["L"])) == [1] and m["k"] == 5 and m["s"] is sb)
+    K.ensure("the sources keep their items", K.index(b, "L") is Lb and K.index(c, "L") is Lc and K.index(b, "k") == 5 and K.index(c, "k") == 6
+             and K.index(b, "s") is sb and K.index(c, "s") is sc and set(view(K, b)) == {"L", "k", "s", "only_b"} and set(view(K, c)) == {"L", "k", "s", "only_c"})
+    K.ensure("... and the values of their lists", list(K.items(Lb)) == [1] and list(K.items(Lc)) == [2, 3])
